@@ -130,6 +130,10 @@ fn run_at(plan: &Plan, mps: usize, arm: Arm, acc: &mut Acc) -> Result<u64, V> {
             }
         }
     }
+    // a send that cannot fit (long identities) followed by one that can (short identities): whatever the
+    // failed attempt wrote must not leak into the next datagram
+    exec(&mut node, &mut watch, Op::Announce(Id::new(65_534, 200)), acc, true, &mut out, &mut probe_timer, &mut indirect_timer)?;
+    exec(&mut node, &mut watch, Op::Announce(Id::new(3, 1)), acc, true, &mut out, &mut probe_timer, &mut indirect_timer)?;
     // acceptance by a fresh peer bearing exactly the destination identity
     let n = out.len() as u64;
     for (to, d) in out {
